@@ -145,15 +145,19 @@ def H_buffer(ctx, cfg):
     e = None if real_np.dtype(i).kind in "ui" else 0
     from ..values import SInt
     ci = SInt.var("case", "int")
-    ctx.assume(z3.And(ci.e >= 0, ci.e < 6))
+    ctx.assume(z3.And(ci.e >= 0, ci.e < 8))
     ci = ci.__index__()        # one (variant, mode) combination per path
-    for variant in (("contiguous", "strided", "readonly")[ci // 2],):
+    for variant in (("contiguous", "strided", "readonly", "fortran")[ci // 2],):
         for preserve in ((True, False)[ci % 2],):
             vals, exact = [], []
+            # Fortran-ordered input into uint64: values up to 2**65, so that the saturation fix-up (which patches
+            # elements after the cast) is exercised on a non-C-contiguous array
+            big = variant == "fortran" and e is not None and o == "uint64"
             for j in range(8 if variant == "strided" else 4):
-                el, nd = _fresh_value(ctx, i, f"{variant}{preserve}{j}", e)
-                # the buffer clauses do not depend on rounding: keep values exactly representable everywhere
-                ctx.assume(z3.And(el.__zexpr__() > -(1 << 23), el.__zexpr__() < (1 << 23)))
+                el, nd = _fresh_value(ctx, i, f"{variant}{preserve}{j}", 41 if big else e)
+                if not big:
+                    # the buffer clauses do not depend on rounding: keep values exactly representable everywhere
+                    ctx.assume(z3.And(el.__zexpr__() > -(1 << 23), el.__zexpr__() < (1 << 23)))
                 vals.append(el)
                 exact.append(nd)
             if variant == "strided":
@@ -164,10 +168,13 @@ def H_buffer(ctx, cfg):
                 base = SArray.from_elems(vals, i, (1, 1, 2, 2))
                 arr = base
                 idx = [0, 1, 2, 3]
+            if variant == "fortran":
+                base = SArray(real_np.asfortranarray(base.a), base.dtype)
+                arr = base
             if variant == "readonly":
                 arr.writeable = False
             before = list(base.a.ravel())
-            ctx.input("variant", [variant, preserve])
+            ctx.input("variant", [variant, preserve, 41 if big else 0])
             ctx.input("values", [v.__zexpr__() for v in vals])
             try:
                 res = f(arr, preserve_input=preserve)
@@ -258,9 +265,15 @@ def replay(cfg, cex):
             return False, "float oracle not evaluable concretely"
         bad = (builtins.int(got) != want) if real_np.dtype(o).kind in "ui" else (float(got) != want)
         return bad, f"{i}->{o}: value {x} converted to {got}, nearest representable is {want}"
-    variant, preserve = inp["variant"]
+    variant, preserve = inp["variant"][:2]
+    exp = inp["variant"][2] if len(inp["variant"]) > 2 else 0
     vals = inp["values"]
-    base = real_np.array(vals, dtype=real_np.int64).astype(i).reshape((1, 1, 2, 4) if variant == "strided" else (1, 1, 2, 2))
+    if exp:
+        base = (real_np.array(vals, dtype=real_np.float64) * 2.0 ** exp).astype(i).reshape(1, 1, 2, 2)
+    else:
+        base = real_np.array(vals, dtype=real_np.int64).astype(i).reshape((1, 1, 2, 4) if variant == "strided" else (1, 1, 2, 2))
+    if variant == "fortran":
+        base = real_np.asfortranarray(base)
     arr = base[:, :, :, ::2] if variant == "strided" else base
     if variant == "readonly":
         arr.flags.writeable = False
@@ -273,7 +286,7 @@ def replay(cfg, cex):
         return True, "input modified"
     from fractions import Fraction
     want = [_nearest(Fraction(builtins.int(v)), o) for v in keep[:, :, :, ::2].ravel()] if variant == "strided" \
-        else [_nearest(Fraction(builtins.int(v)), o) for v in keep.ravel()]
+        else [_nearest(Fraction(float(v)) if keep.dtype.kind == "f" else Fraction(builtins.int(v)), o) for v in keep.ravel()]
     got = [float(v) if real_np.dtype(o).kind == "f" else builtins.int(v) for v in res.ravel()]
     if got != want:
         return True, f"{i}->{o} {variant} preserve_input={preserve}: {keep.ravel().tolist()} converted to {got}, expected {want}"
